@@ -1271,6 +1271,7 @@ package modfile
 //@   ensures [C16] comments_move_with_the_line: old(r.Syntax) != nil ==> r.Syntax.Comments.Before == old(r.Syntax.Comments.Before) && r.Syntax.Comments.Suffix == old(r.Syntax.Comments.Suffix) && r.Syntax.Comments.After == old(r.Syntax.Comments.After)
 //@   ensures forall q *Require {q.Syntax} :: q != r ==> q.Syntax == old(q.Syntax)
 //@   ensures forall q *Require {q.Indirect} :: q != r ==> q.Indirect == old(q.Indirect)
+//@   ensures r.Indirect == old(r.Indirect)
 //@   ensures [C16] verb_dropped: old(r.Syntax) != nil ==> r.Syntax.Token == (if !old(r.Syntax.InBlock) && old(len(r.Syntax.Token)) > 0 && old(r.Syntax.Token[0]) == "require" then old(r.Syntax.Token)[1:] else old(r.Syntax.Token))
 //@   props C16
 
@@ -1288,7 +1289,9 @@ package modfile
 //@   loop 0:
 //@     invariant 0 - 1 <= @idx && @idx < len(f.Syntax.Stmt) && f != nil && f.Syntax != nil && f.Syntax.Stmt == pre(f.Syntax.Stmt) && lineToBlock != nil
 //@     invariant 0 - 1 <= lastDirectIndex && lastDirectIndex <= @idx && 0 - 1 <= lastIndirectIndex && lastIndirectIndex <= @idx && 0 - 1 <= lastRequireIndex && lastRequireIndex <= @idx
-//@     invariant requireLineOrBlockCount >= 0 && requireLineOrBlockCount <= @idx + 1 && (requireLineOrBlockCount >= 1 ==> lastRequireIndex >= 0)
+//@     invariant requireLineOrBlockCount >= 0 && requireLineOrBlockCount <= @idx + 1 && (requireLineOrBlockCount >= 1) == (lastRequireIndex >= 0)
+//@     # a direct-only or indirect-only statement is a require statement: it was counted
+//@     invariant [C16] every_require_statement_counted: (lastDirectIndex >= 0 || lastIndirectIndex >= 0 ==> lastRequireIndex >= 0) && lastDirectIndex <= lastRequireIndex && lastIndirectIndex <= lastRequireIndex
 //@     invariant lastDirectIndex >= 0 && lastIndirectIndex >= 0 ==> lastDirectIndex != lastIndirectIndex
 //@     invariant (lastDirectIndex >= 0 ==> LB(f.Syntax.Stmt[lastDirectIndex]) && (ISLINE(f.Syntax.Stmt[lastDirectIndex]) ==> len(ifaceptr(f.Syntax.Stmt[lastDirectIndex], "*Line").Token) >= 1)) && (lastIndirectIndex >= 0 ==> LB(f.Syntax.Stmt[lastIndirectIndex]) && (ISLINE(f.Syntax.Stmt[lastIndirectIndex]) ==> len(ifaceptr(f.Syntax.Stmt[lastIndirectIndex], "*Line").Token) >= 1)) && (lastRequireIndex >= 0 ==> LB(f.Syntax.Stmt[lastRequireIndex]))
 //@     invariant forall k int :: 0 <= k && k < len(f.Syntax.Stmt) ==> ADDLINE_WF(f.Syntax.Stmt[k])
@@ -1309,6 +1312,9 @@ package modfile
 //@     invariant lastDirectBlock != nil && lastIndirectBlock != nil && lastDirectBlock != lastIndirectBlock
 //@     invariant forall p string {need[p]} :: has(need, p) ==> need[p] != nil && p != ""
 //@     invariant RQ_NONNIL(f)
+//@     # when the file's only requirements were one uncommented line or block, the requirement just kept was moved to
+//@     # the end of the block for its marking: indirect ones to the indirect block, direct ones to the direct block
+//@     invariant [C16] single_block_is_split: oneFlatUncommentedBlock && @idx >= 0 && f.Require[@idx].Mod.Path != "" ==> (f.Require[@idx].Indirect ==> len(lastIndirectBlock.Line) >= 1 && lastIndirectBlock.Line[len(lastIndirectBlock.Line)-1] == f.Require[@idx].Syntax) && (!f.Require[@idx].Indirect ==> len(lastDirectBlock.Line) >= 1 && lastDirectBlock.Line[len(lastDirectBlock.Line)-1] == f.Require[@idx].Syntax)
 //@     decreases len(f.Require) - @idx
 //@   loop 4:
 //@     invariant need != nil && have != nil && f != nil && f.Syntax != nil && lastDirectBlock != nil && lastIndirectBlock != nil
